@@ -20,3 +20,27 @@ reg(Spec(
     ],
     modelled=["internal/health/health.go (AddReadiness, OnReady, IsReady, GetReadyzStatusMap, readyzHandler, WaitForReady)"],
 ))
+
+TRACKER_OVERLAY = {"processors/auditd/sessiontracker/verif_export.go": "harness/overlay/sessiontracker_verif.go"}
+TRACKER_ASSUME = [
+    "logins and audit events are identified by ids; identity content and rendering are functions of (login, event) (Model/ToEvent.v, C14)",
+    "Go's random map iteration order in RemoteLogin's scan is the model's choice argument; a step corresponds if some choice reproduces it",
+    "time.Now() inside the correlator is bracketed by the harness' own clock readings (cut-offs always fall between two calls)",
+    "theorems are about the writer that never fails; write failures are covered by the model and the per-step correspondence, and by C15",
+]
+TRACKER_MODELLED = ["processors/auditd/sessiontracker/sessiontracker.go (RemoteLogin, AuditdEvent, both cleanups, writeAndClearCache)"]
+
+
+def tracker(pid, n_quick=160, n_thorough=3000):
+    reg(Spec(
+        pid, "Props/%s.v" % pid, harness="tracker", overlay=TRACKER_OVERLAY,
+        args_quick=["-prop", pid, "-n", str(n_quick)],
+        args_thorough=["-prop", pid, "-n", str(n_thorough)],
+        args_search=["-prop", pid, "-n", "1500"],
+        assumptions=TRACKER_ASSUME, modelled=TRACKER_MODELLED,
+        extra_targets=["Model/TrackerCheck.vo"],
+    ))
+
+
+for _p in ("C01", "C02", "C04", "C09", "C16"):
+    tracker(_p)
